@@ -113,7 +113,7 @@ pub struct DefView {
 pub fn def_strategy(vd: DefView, hi_q: usize, hi_t: usize, len_mult: usize) -> impl Fn(Tier) -> BoxedStrategy<Case> + Send + Sync {
     move |tier: Tier| {
         let vd = vd.clone();
-        (gen::window(tier, vd.min_n, hi_q, hi_t), gen::dyadic_scale())
+        (gen::window(tier, vd.min_n, hi_q, hi_t), gen::dyadic_scale_wide())
             .prop_flat_map(move |(n, sc)| {
                 let mut cfg = StreamCfg::new(n).scale(sc).len(0, len_mult * n + 8);
                 if vd.positive {
@@ -130,7 +130,7 @@ pub fn def_strategy(vd: DefView, hi_q: usize, hi_t: usize, len_mult: usize) -> i
 pub fn def_strategy_long(vd: DefView) -> impl Fn(Tier) -> BoxedStrategy<Case> + Send + Sync {
     move |tier: Tier| {
         let vd = vd.clone();
-        (vd.min_n..=vd.min_n + 7, gen::dyadic_scale())
+        (vd.min_n..=vd.min_n + 7, gen::dyadic_scale_wide())
             .prop_flat_map(move |(n, sc)| {
                 let mut cfg = StreamCfg::new(n).scale(sc).kmax(512);
                 if vd.positive {
